@@ -354,3 +354,47 @@ func TestChannelFaults(t *testing.T) {
 		})
 	})
 }
+
+// TestTruncation: a valid chain cut short (torn transfer) must never be
+// returned as a (shorter) chain: every proper prefix is refused. All prefixes
+// for chains up to 1500 bytes, 96 drawn cut points otherwise.
+func TestTruncation(t *testing.T) {
+	rapid.Check(t, func(t *rapid.T) {
+		core.Run(t, "cert/truncation", func(c *core.Ctx) {
+			ch, _ := drawChain(c)
+			ch[0].ocsp = c.Bytes("ocsp", 1, 30)
+			for i := range ch {
+				if i > 0 {
+					ch[i].ocsp = nil
+				}
+				if len(ch[i].sct) > 200 {
+					ch[i].sct = ch[i].sct[:200]
+				}
+			}
+			blob := refEncode(ch)
+			var cuts []int
+			if len(blob) <= 1500 {
+				for k := 0; k < len(blob); k++ {
+					cuts = append(cuts, k)
+				}
+				core.ExhaustiveDone("C17: every proper prefix of one chain", 1)
+			} else {
+				for i := 0; i < 96; i++ {
+					cuts = append(cuts, c.Int("cut", 0, len(blob)-1))
+				}
+			}
+			for _, k := range cuts {
+				got, err, pi, alloc := readChain(c, blob[:k], core.ReaderPlan{ErrAt: -1})
+				if c.Oracle("C10", "C17") {
+					c.CheckTotal("ReadCertChain", k, pi, alloc)
+				}
+				if c.Oracle("C17") && pi == nil && err == nil {
+					c.Violation("truncated-chain-accepted", "ReadCertChain", "a chain of %d certificates (%d bytes) cut at %d was returned as a chain of %d", len(ch), len(blob), k, len(got))
+				}
+			}
+			c.Fault("chan-truncate")
+			c.Outcome("done")
+			c.Sig("n%d/len%d", len(ch), len(blob)/256)
+		})
+	})
+}
